@@ -333,10 +333,11 @@ theorem C01_system_complete (env : Env) (hcomp : ∀ b, env.compress b = b) (hde
     (sub : Nat) (ci : Cipher) (size : Nat) (hsz : 1 ≤ size) (start : Nat) (ops : List SysOp) (s : Sys) (ch : Chan)
     (h0 : Good sub ci size start s ch) (hok : Sys.runOk env sub s ops = true)
     (hall : (Sys.run env sub s ops).nrel = (Sys.run env sub s ops).net.length)
-    (hidle : (Sys.run env sub s ops).pend = []) :
+    (hidle : (Sys.run env sub s ops).pend = [])
+    (hopen : (Sys.run env sub s ops).a.state = STATE_CONNECTED ∨ (Sys.run env sub s ops).clean = true) :
     ((Sys.run env sub s ops).b.queues[sub]?.getD []) = (Sys.run env sub s ops).accepted ∧
     ((Sys.run env sub s ops).b.eof = false → ((Sys.run env sub s ops).b.fragBufs[sub]?.getD []) = []) :=
-  good_complete (sys_refines env hcomp hdec sub ci size hsz start ops s ch h0 hok).1 hall hidle
+  good_complete (sys_refines env hcomp hdec sub ci size hsz start ops s ch h0 hok).1 hall hidle hopen
 
 open Nx.L1 Nx.Prudp in
 /-- **Liveness, end to end.** Starting from the initial channel: if the receiving endpoint is still open, no `send` is between
@@ -346,6 +347,7 @@ theorem C01_system_liveness (env : Env) (hcomp : ∀ b, env.compress b = b) (hde
     (sub : Nat) (ci : Cipher) (size : Nat) (hsz : 1 ≤ size) (start : Nat) (hs : start < 65536) (ops : List SysOp) (s : Sys)
     (h0 : Good sub ci size start s (Chan.init start)) (hok : Sys.runOk env sub s ops = true)
     (hopen : (Sys.run env sub s ops).b.eof = false) (hidle : (Sys.run env sub s ops).pend = [])
+    (hconn : (Sys.run env sub s ops).a.state = STATE_CONNECTED ∨ (Sys.run env sub s ops).clean = true)
     (hall : ∀ j, j < (Sys.run env sub s ops).net.length → j ∈ arrived ci size (Chan.init start) (Sys.absOps env sub s ops)) :
     ((Sys.run env sub s ops).b.queues[sub]?.getD []) = (Sys.run env sub s ops).accepted := by
   obtain ⟨hg, hrok⟩ := sys_refines env hcomp hdec sub ci size hsz start ops s (Chan.init start) h0 hok
@@ -354,7 +356,19 @@ theorem C01_system_liveness (env : Env) (hcomp : ∀ b, env.compress b = b) (hde
   have hlen : (Chan.run ci size (Chan.init start) (Sys.absOps env sub s ops)).s.log.length = (Sys.run env sub s ops).net.length := by
     rw [← hg.cpl.log, List.length_map]
   have hrel := all_arrived_all_released ci (good_cipher hg) size hsz start hs _ hrok hcl (fun j hj => hall j (by rw [← hlen]; exact hj))
-  exact (good_complete hg (by rw [hg.cpl.nrel, hrel, hlen]) hidle).1
+  exact (good_complete hg (by rw [hg.cpl.nrel, hrel, hlen]) hidle hconn).1
+
+open Nx.L1 Nx.Prudp in
+/-- **Graceful close, end to end.** If the receiving endpoint has reached end-of-stream — in this system that can only happen
+    through the sender's DISCONNECT being released by the window — and `disconnect()` was called while no `send` was between its
+    fragments, then everything the sending application passed to `send` had been delivered before: `recv` returns all of it,
+    then raises. -/
+theorem C01_system_graceful_close (env : Env) (hcomp : ∀ b, env.compress b = b) (hdec : ∀ b, env.decompress b = .ok b)
+    (sub : Nat) (ci : Cipher) (size : Nat) (hsz : 1 ≤ size) (start : Nat) (ops : List SysOp) (s : Sys) (ch : Chan)
+    (h0 : Good sub ci size start s ch) (hok : Sys.runOk env sub s ops = true)
+    (heof : (Sys.run env sub s ops).b.eof = true) (hclean : (Sys.run env sub s ops).clean = true) :
+    ((Sys.run env sub s ops).b.queues[sub]?.getD []) = (Sys.run env sub s ops).accepted :=
+  good_closed (sys_refines env hcomp hdec sub ci size hsz start ops s ch h0 hok).1 heof hclean
 
 open Nx.L1 Nx.Prudp in
 /-- the hypothesis `Good` holds at the start: for every environment, every substream the settings allow and every choice of
@@ -371,7 +385,8 @@ theorem C01_system_initial (env : Env) (sub : Nat) (hsub : sub ≤ env.s.maxSubs
 /-! non-vacuity of the system theorems: a run with a two-fragment message, reordering, duplication (one copy through the whole
     receive path), a forged DISCONNECT, a refused `send`, then a
     three-fragment message sent fragment by fragment with a keep-alive ping between its fragments (and a second `send` that
-    finds the lock taken) meets `Sys.runOk`, and the receiver ends up with exactly the accepted messages (stream transport here, i.e. no RC4, only so
+    finds the lock taken), then a graceful `disconnect()`, a refused `send` after it and the DISCONNECT delivered through `handle`
+    meets `Sys.runOk`; the receiver ends up at end-of-stream with exactly the accepted messages (stream transport here, i.e. no RC4, only so
     that the kernel evaluates the run in a second rather than minutes — RC4's key schedule on kernel arrays is slow; the theorems
     themselves hold for every key, `endpoint_cipher_ok`) -/
 open Nx.L1 Nx.Prudp in
@@ -381,11 +396,13 @@ example :
     let b := { Conn.new env (some 1) 4 5 6 ("10.0.0.1", 2) 1 10 ("10.0.0.2", 1) 15 10 with state := STATE_CONNECTED, remoteSessionId := some 3 }
     let forged : Packet := { type := TYPE_DISCONNECT, flags := 6, packetId := 1, sessionId := 3, signature := some [99] }
     let ops := [SysOp.send 0 [1, 2, 3], .deliver 1, .inject 1 forged, .deliverH 2 1, .deliverH 3 0, .send 5 [], .deliver 7,
-                .begin 6 [4, 5, 6, 7, 8], .frag 6, .ping 7, .send 7 [9], .frag 8, .frag 9, .deliver 5, .deliver 3, .deliver 4, .deliver 2]
+                .begin 6 [4, 5, 6, 7, 8], .frag 6, .ping 7, .send 7 [9], .frag 8, .frag 9, .deliver 5, .deliver 3, .deliver 4, .deliver 2,
+                .disconnect 10, .send 11 [10], .deliverH 12 6]
     Sys.runOk env 0 (Sys.fresh a b) ops = true ∧
     (Sys.run env 0 (Sys.fresh a b) ops).b.queues = [[[1, 2, 3], [4, 5, 6, 7, 8]]] ∧
     (Sys.run env 0 (Sys.fresh a b) ops).accepted = [[1, 2, 3], [4, 5, 6, 7, 8]] ∧
-    (Sys.run env 0 (Sys.fresh a b) ops).net.map (·.type) = [TYPE_DATA, TYPE_DATA, TYPE_DATA, TYPE_PING, TYPE_DATA, TYPE_DATA] ∧
-    (Sys.run env 0 (Sys.fresh a b) ops).nrel = 6 ∧ (Sys.run env 0 (Sys.fresh a b) ops).pend = [] := by decide +kernel
+    (Sys.run env 0 (Sys.fresh a b) ops).net.map (·.type) = [TYPE_DATA, TYPE_DATA, TYPE_DATA, TYPE_PING, TYPE_DATA, TYPE_DATA, TYPE_DISCONNECT] ∧
+    (Sys.run env 0 (Sys.fresh a b) ops).nrel = 7 ∧ (Sys.run env 0 (Sys.fresh a b) ops).pend = [] ∧
+    (Sys.run env 0 (Sys.fresh a b) ops).b.eof = true ∧ (Sys.run env 0 (Sys.fresh a b) ops).clean = true := by decide +kernel
 
 end Nx.C01
